@@ -10,7 +10,15 @@ def run(pid, tier, seed, ROOT, REPO, WORK):
     out = {'coverage': {}, 'problems': [], 'violations': [], 'samples': []}
     h = os.path.join(ROOT, 'harness', 'target', 'debug', 'harness')
     f = os.path.join(WORK, 'kindscont.txt')
-    p = subprocess.run([h, 'kindscont'], stdout=open(f, 'w'), stderr=subprocess.PIPE, text=True)
+    try:
+        p = subprocess.run([h, 'kindscont'], stdout=open(f, 'w'), stderr=subprocess.PIPE, text=True, timeout=120)
+    except subprocess.TimeoutExpired:
+        lines = [l.rstrip('\n') for l in open(f)]
+        path = os.path.join(ROOT, 'replays'); os.makedirs(path, exist_ok=True)
+        path = os.path.join(path, f'{pid}-kindscont.txt')
+        open(path, 'w').write('\n'.join(lines) + '\n\nthe program did not finish within 120 s (it takes well under a second): a call never returned\nreplay: harness/target/debug/harness kindscont\n')
+        out['violations'].append(('count: the container-level program over the pointer kinds hangs: a call on a container of some kind never returns (single-threaded; see the replay for the lines printed before)', path))
+        return out
     lines = [l.rstrip('\n') for l in open(f)]
     if p.returncode != 0 or not any(l.startswith('kindscont: ') for l in lines):
         path = os.path.join(ROOT, 'replays'); os.makedirs(path, exist_ok=True)
